@@ -197,13 +197,13 @@ PROPS = {
         "assumptions": [],
     },
     "C08": {
-        "modules": ["Ezpz.Properties.C08"],
+        "modules": ["Ezpz.Properties.C08", "Ezpz.Proofs.Label", "Ezpz.Proofs.Render"],
         "suites": [
             {"suite": "text", "quick": (400, 200), "thorough": (20000, 5000)},
         ],
         "oracles": [],
-        "partial": ["the grammar (winnow combinators, f64::from_str) is modelled by hand and covered by the correspondence check only; a parse/print round-trip theorem is not proved",
-                    "guess values at the specified ids and the labelled outcome are checked by the oracle inside corr-text (constraints / guesses / labels a user would build by hand), not proved"],
+        "partial": ["the grammar (winnow combinators, f64::from_str) is modelled by hand and tied to parser.rs by the exact differential comparison; about the model it is proved that parsing the canonical rendering of any well-formed problem (all 23 instruction forms, declarations, both guess kinds; integer or plain decimal literals) returns that problem (parse_render, parse_render_dec, parse_render_instr); literals with exponents, nan/inf and sqrt(...), the pair form 'l = (x, y)' and non-canonical spacing are outside the round-trip theorem (covered by corr-text only); nothing is proved about the bits of the decimal-to-binary64 conversion (checked against Python's float() in the model's own tests and against Rust in corr-text)",
+                    "the labelled outcome is proved to report, for every declared point / circle / arc in declaration order, the final values at exactly the ids the layout specification assigns - the same ids the lowered constraints use (labelOutcome_spec, labelled_*_is_constraint_variable) - and the initial guesses round-trip through it (label_roundtrip)"],
         "assumptions": ["VARS_PER_POINT/CIRCLE/ARC are the values extracted from geometry_variables.rs on this run"],
         "rule": "texts are generated from the grammar (0..6 points, 0..3 circles, 0..3 arcs in any interleaving, 1..20 instructions over all 24 syntactic forms, several number syntaxes, optional whitespace) plus a mutation stream; each is compared exactly (parse dump, constraints, guesses, labelled outcome) between the real front-end and the Lean model, and against hand-built constraints",
     },
